@@ -36,3 +36,133 @@ class Align:
         # a multiple of the alignment (witness: the quotient the code computes) in [value, value+alignment)
         return (result == ((value + alignment - 1) // alignment) * alignment
                 and value <= result < value + alignment)
+
+
+# ---- the allocation decision itself: the `while proposal_overlaps:` loop of greedy.allocate, extracted mechanically --------
+from pyvc.values import TSeq, TMap, TTuple, TBool   # noqa: E402
+from pyvc.speclib import forall_range, select, seq_len, forall_int   # noqa: E402
+
+RESERVATIONS = TSeq(SLICE)
+
+
+def _lookup_env(name):
+    def handler(E, obj, args, kwargs, st, node):
+        return [(st, st.env[name], None)]
+    return handler
+
+
+def _local_get(E, obj, args, kwargs, st, node):
+    """locally_reserved.get(xy, {}) -> an object whose .get(resource, []) is the list of this chip's reservations"""
+    from pyvc.values import ObjV
+    return [(st, ObjV("LocalOfChip", {}), None)]
+
+
+def overlaps(a_start, a_stop, r):
+    return max(a_start, r.start) < min(a_stop, r.stop)
+
+
+def aligned_up(v, a):
+    return ((v + a - 1) // a) * a
+
+
+@contract("rig/place_and_route/allocate/greedy.py::allocate@forbody:4")
+class AllocateOneResource:
+    """One vertex, one resource: ONE iteration of `for resource, requirement in iteritems(vertices_resources[vertex])` - the
+    loop that proposes ranges until one is free, and the two statements that record the range and advance the chip's pointer.
+    Extracted on every run as a function of its free variables (what the extraction drops: everything of allocate() outside
+    this loop body - constraint collection and the loops over chips, vertices and resources that drive it).  The three
+    container look-ups are abstracted: globally_reserved[resource] and locally_reserved.get(xy, {}).get(resource, []) are the
+    reservation lists g_glob / g_loc, machine[xy] is the chip's resource map g_chip."""
+    properties = ("C05",)
+    params = dict(resource=TInt(), requirement=TInt(0, None), vertex_allocation=TMap(TInt(), SLICE),
+                  resource_pointers=TMap(TInt(), TInt()), alignments=TMap(TInt(), TInt(1, None)),
+                  machine=TRec("Machine"), xy=TTuple(TInt(), TInt()), globally_reserved=TRec("GlobalRes"), locally_reserved=TRec("LocalRes"),
+                  g_glob=RESERVATIONS, g_loc=RESERVATIONS, g_chip=TMap(TInt(), TInt()))
+    fragment_result = ("vertex_allocation", "resource_pointers")
+    modular = ("rig/place_and_route/allocate/utils.py::align", "rig/place_and_route/allocate/utils.py::slices_overlap")
+    externals = {"GlobalRes.__getitem__": _lookup_env("g_glob"), "LocalRes.get": _local_get, "LocalOfChip.get": _lookup_env("g_loc"),
+                 "Machine.__getitem__": _lookup_env("g_chip")}
+    options = {"var_shapes": {"proposed_allocation": SLICE, "start": TInt(), "local_reservations": RESERVATIONS, "proposal_overlaps": TBool()}}
+    raises = {"InsufficientResourceError": None}
+    loop_headers = {1: "while proposal_overlaps:", 2: "for reservation in globally_reserved[resource]:", 3: "for reservation in local_reservations:"}
+    assumptions = ["defaultdict / dict look-ups of the allocator are abstracted by their values for this vertex (alignment >= 1 present for the resource, reservation lists as ghost inputs)"]
+
+    def native(requirement):
+        raise __import__("pyvc.replay", fromlist=["OutsideHarness"]).OutsideHarness()
+
+    def requires(resource, resource_pointers, alignments, g_chip):
+        # (pointers start at 0 and only ever move to the end of a proposal or of a reservation overlapping one)
+        return resource in resource_pointers and resource_pointers[resource] >= 0 and resource in alignments and resource in g_chip
+
+    # ---- loop 1: propose, test, move on
+    def inv_1_pointer_map_keeps_its_keys_and_only_moves_forward(resource, resource_pointers, old_resource_pointers):
+        return (resource in resource_pointers and resource_pointers[resource] >= old_resource_pointers[resource]
+                and forall_int(lambda k: implies(k != resource, (k in resource_pointers) == (k in old_resource_pointers)
+                                                 and implies(k in resource_pointers, resource_pointers[k] == old_resource_pointers[k]))))
+
+    def inv_1_an_accepted_proposal_is_good(proposal_overlaps, proposed_allocation, resource, requirement, resource_pointers, alignments, g_chip, g_glob, g_loc):
+        return proposal_overlaps or (
+            proposed_allocation.start == aligned_up(resource_pointers[resource], alignments[resource])
+            and proposed_allocation.start >= resource_pointers[resource]
+            and proposed_allocation.stop == proposed_allocation.start + requirement
+            and proposed_allocation.stop <= g_chip[resource]
+            and forall_range(0, seq_len(g_glob), lambda j: not overlaps(proposed_allocation.start, proposed_allocation.stop, select(g_glob, j)))
+            and forall_range(0, seq_len(g_loc), lambda j: not overlaps(proposed_allocation.start, proposed_allocation.stop, select(g_loc, j))))
+
+    def inv_1_allocation_of_the_other_resources_untouched(vertex_allocation, old_vertex_allocation):
+        return forall_int(lambda k: (k in vertex_allocation) == (k in old_vertex_allocation)
+                          and implies(k in vertex_allocation, vertex_allocation[k] == old_vertex_allocation[k]))
+
+    def variant_1(proposal_overlaps, resource, resource_pointers, g_chip):
+        # every further round starts strictly further up; a round that starts beyond the chip's capacity raises
+        return max(0, g_chip[resource] - resource_pointers[resource] + 1) + (1 if proposal_overlaps else 0)
+
+    # ---- loop 2: global reservations
+    def inv_2_flag_says_whether_a_global_reservation_seen_so_far_overlaps(proposal_overlaps, proposed_allocation, g_glob, _k2):
+        return proposal_overlaps == exists_range(0, _k2, lambda j: overlaps(proposed_allocation.start, proposed_allocation.stop, select(g_glob, j)))
+
+    def inv_2_pointer(proposal_overlaps, proposed_allocation, resource, resource_pointers, pre_resource_pointers):
+        return (resource in resource_pointers
+                and (resource_pointers[resource] == pre_resource_pointers[resource] if not proposal_overlaps else resource_pointers[resource] > proposed_allocation.start)
+                and forall_int(lambda k: implies(k != resource, (k in resource_pointers) == (k in pre_resource_pointers)
+                                                 and implies(k in resource_pointers, resource_pointers[k] == pre_resource_pointers[k]))))
+
+    # ---- loop 3: this chip's reservations
+    def inv_3_flag_says_whether_any_reservation_seen_so_far_overlaps(proposal_overlaps, proposed_allocation, g_glob, g_loc, _k3):
+        return proposal_overlaps == (exists_range(0, seq_len(g_glob), lambda j: overlaps(proposed_allocation.start, proposed_allocation.stop, select(g_glob, j)))
+                                     or exists_range(0, _k3, lambda j: overlaps(proposed_allocation.start, proposed_allocation.stop, select(g_loc, j))))
+
+    def inv_3_pointer(proposal_overlaps, proposed_allocation, resource, resource_pointers, pre_resource_pointers):
+        return (resource in resource_pointers
+                and (resource_pointers[resource] == pre_resource_pointers[resource] if not proposal_overlaps else resource_pointers[resource] > proposed_allocation.start)
+                and forall_int(lambda k: implies(k != resource, (k in resource_pointers) == (k in pre_resource_pointers)
+                                                 and implies(k in resource_pointers, resource_pointers[k] == pre_resource_pointers[k]))))
+
+    # ---- outcome (result[0] = the vertex's allocation so far, result[1] = the chip's pointers)
+    def raises_InsufficientResourceError(resource, g_chip):
+        return True     # the documented failure: a proposal would end beyond what the chip has
+
+    def ensures_the_resource_gets_one_range_of_exactly_the_requested_size_inside_the_chip(result, resource, requirement, g_chip):
+        r = result[0][resource]
+        return resource in result[0] and r.stop - r.start == requirement and 0 <= r.start and r.stop <= g_chip[resource]
+
+    def ensures_it_starts_on_the_alignment_at_or_after_the_chips_pointer(result, resource, alignments, old_resource_pointers):
+        r = result[0][resource]
+        a = alignments[resource]
+        return (r.start >= old_resource_pointers[resource]
+                and exists_range(r.start // a, r.start // a + 1, lambda q: r.start == q * a))
+
+    def ensures_it_overlaps_no_reservation(result, resource, g_glob, g_loc):
+        r = result[0][resource]
+        return (forall_range(0, seq_len(g_glob), lambda j: not overlaps(r.start, r.stop, select(g_glob, j)))
+                and forall_range(0, seq_len(g_loc), lambda j: not overlaps(r.start, r.stop, select(g_loc, j))))
+
+    def ensures_the_chips_pointer_moves_to_the_end_of_the_range(result, resource):
+        # ... so the next vertex on this chip starts at or after it: ranges of different vertices are disjoint
+        return resource in result[1] and result[1][resource] == result[0][resource].stop
+
+    def ensures_other_pointers_and_other_resources_untouched(result, resource, old_resource_pointers, old_vertex_allocation):
+        return (forall_int(lambda k: implies(k != resource, (k in result[1]) == (k in old_resource_pointers)
+                                             and implies(k in result[1], result[1][k] == old_resource_pointers[k])))
+                and forall_int(lambda k: implies(k != resource, (k in result[0]) == (k in old_vertex_allocation)
+                                                 and implies(k in result[0], result[0][k] == old_vertex_allocation[k]))))
